@@ -272,9 +272,12 @@ def task(payload):
             if all(isinstance(g, float) and mv.close(g, t, 1e-12, 0.0) for _, t, g in rows):
                 continue
             # a constant rescale on read (unit bookkeeping such as km -> m) is not a clamp: held = k * typed for one k
-            ks = [g / t for _, t, g in rows if isinstance(g, float) and t != 0]
-            distinct_typed = len({t for _, t, _ in rows})
-            if len(ks) == len(rows) and distinct_typed >= 2 and all(mv.close(k, ks[0], 1e-9, 0.0) for k in ks) and ks[0] != 0:
+            # (a typed 0 must be held as 0 and says nothing about k; k needs two distinct non-zero typed values)
+            nz = [(t, g) for _, t, g in rows if t != 0]
+            zeros_ok = all(isinstance(g, float) and g == 0 for _, t, g in rows if t == 0)
+            ks = [g / t for t, g in nz if isinstance(g, float)]
+            distinct_typed = len({t for t, _ in nz})
+            if zeros_ok and len(ks) == len(nz) and distinct_typed >= 2 and all(mv.close(k, ks[0], 1e-9, 0.0) for k in ks) and ks[0] != 0:
                 check.note(res, 'rescaled_on_read', f'{name} x{ks[0]:.6g} ({module})')
                 continue
             bad = next((r for r in rows if not (isinstance(r[2], float) and mv.close(r[2], r[1], 1e-12, 0.0))), rows[0])
